@@ -122,7 +122,11 @@ for pid, title in [("C16", "names and metadata (WalkAtomic, WalkPrefix, QidIdent
         "request); TLC model-checks " + title + " on small trees; tours/simulated behaviours are executed three ways -- model, the same "
         "operation with the os package on a twin tree, and raw 9P against a real Ufs -- and compared after every step (replies, errno in .u, "
         "qids vs inodes, Rstat vs Lstat, recursive tree comparison, canaries, Tstat probes of every fid); TLC validates the twin log against "
-        "the model (a model/twin disagreement is inconclusive, never a violation).",
+        "the model (a model/twin disagreement is inconclusive, never a violation)." + {
+            "C16": " Outside the model: qid, Rstat and directory records of every other kind of host object (FIFO, socket, dangling links, set-id files "
+                   "and directories) against os.Lstat in both dialects, again on the same fid after a host-side change and through a longer walk.",
+            "C17": " Outside the model: ten permission changes and creates involving set-uid/set-gid through 9P and with the os package on a twin, "
+                   "in both dialects.", "C18": ""}[pid],
         "Trusted base: TLC, the twin (os/syscall) as second oracle, harness/wire, uid 0 on the sandbox file system (no permission denials). "
         "Scope guards are listed as assumptions in the evidence.",
         "TLA+/TLC model checking + tour/simulation replay on real Ufs with twin-tree comparison + TLC trace validation of the twin log",
